@@ -145,10 +145,46 @@ func (c *Ctx) valueSource(ia *interpAnchors, v ssa.Value, depth int) string {
 				fld := fa.X.Type().Underlying().(*types.Pointer).Elem().Underlying().(*types.Struct).Field(fa.Field)
 				return "field " + fld.Name()
 			}
+			if _, ok := x.X.(*ssa.FreeVar); ok {
+				// a variable of the enclosing function, captured by this closure and assigned once:
+				// the value it has there
+				if vals := freeVarValues(x); len(vals) > 0 {
+					set := map[string]bool{}
+					for _, v := range vals {
+						set[c.valueSource(ia, v, depth+1)] = true
+					}
+					var l []string
+					for s := range set {
+						l = append(l, s)
+					}
+					sort.Strings(l)
+					return strings.Join(l, "|")
+				}
+				return "?"
+			}
 		}
 		return "fresh"
 	case *ssa.Call:
 		name := "dynamic"
+		if targets := closureTargets(x.Call.Value); len(targets) > 0 && !x.Call.IsInvoke() {
+			// a closure made in this function: what it returns (helpers and closures are the same thing)
+			set := map[string]bool{}
+			for _, mc := range targets {
+				for _, r := range returns(mc.Fn.(*ssa.Function)) {
+					for _, rv := range retValues(r, 0) {
+						set[c.valueSource(ia, rv, depth+1)] = true
+					}
+				}
+			}
+			var l []string
+			for s := range set {
+				l = append(l, s)
+			}
+			sort.Strings(l)
+			if len(l) > 0 {
+				return strings.Join(l, "|")
+			}
+		}
 		if cal := x.Call.StaticCallee(); cal != nil {
 			name = cal.String()
 			if cal == ia.load {
@@ -238,6 +274,11 @@ func (c *Ctx) sharingRules(ia *interpAnchors, reg *registry) {
 		sort.Strings(kinds)
 		for _, k := range kinds {
 			got := byKind[k]
+			if _, own := want["stackstore"]; k == "push" && !own {
+				// a result written into a slot of the operand stack (followed by a re-slice) is a
+				// push by other means: the value placed on the stack is held to the same rule
+				got = append(append([]string{}, got...), byKind["stackstore"]...)
+			}
 			if len(got) == 0 {
 				if k == "stackstore" || k == "elemstore" && e.key != "put" {
 					continue // alternative form not used
